@@ -614,7 +614,8 @@ class CollapseAmbiguities(Transformer):
 
     """
     def _ambig(self, options):
-        return sum(options, [])
+        # An alternative that is not a tree or token (a None placeholder) is not a list; see __default__
+        return sum([o if isinstance(o, list) else [o] for o in options], [])
 
     def __default__(self, data, children_lists, meta):
         # A child that is neither a tree nor a token (such as the None placeholder of an
